@@ -7,6 +7,7 @@ delivery and garbage collection are outside the model (assumed as in DESIGN §7.
 import CobaldVerif.Model.Daemon
 import CobaldVerif.Props.C01
 import CobaldVerif.Props.C03
+import CobaldVerif.Lemmas.RuntimeProgress
 
 namespace Cobald.Props.C13
 open Cobald Cobald.Runtime Cobald.Daemon
@@ -80,6 +81,25 @@ theorem failure_progress (s : St) (f : Flav) (p : Nat) (hup : s.phase = .up)
   intro hg
   refine ⟨{ s with rtask := step.upd' s.rtask f (.err p), gather := .raised p }, ?_, rfl⟩
   simp [step, step.upd', hup, hg]
+
+/-- **it never stays up idle**: once the failure of the loader or of a service has been delivered
+to the runtime and the coroutine payloads have unwound, at most 8 closing steps end the daemon's
+run call, and the exit status is not 0 -/
+theorem failure_exits_nonzero (s : St) (hr : Reach s) (hup : s.phase = .up) (p : Nat) (hg : s.gather = .raised p)
+    (hk : s.pay p ≠ .done .kbd) (hq : s.coQuiet) :
+    ∃ es s' r, (es.all Ev.closingEv = true) ∧ run s es = some s' ∧ s'.phase = .ended r ∧ exitStatus r ≠ 0 ∧ es.length ≤ 8 := by
+  obtain ⟨es, s', r, h1, h2, h3, h4, h5⟩ := Runtime.failure_ends_run s hr hup p hg hk hq
+  refine ⟨es, s', r, h1, h2, h3, ?_, h5⟩
+  cases r with
+  | returned => exact absurd rfl h4
+  | raisedRT _ => simp [exitStatus]
+  | raisedBase _ => simp [exitStatus]
+
+/-- **SIGINT stops it gracefully**: after the interrupt, once the services have been cancelled and
+have unwound, at most 8 closing steps end the run call -/
+theorem sigint_stops (s : St) (hr : Reach s) (hup : s.phase = .up) (hi : s.gather = .interrupted) (hq : s.coQuiet) :
+    ∃ es s' r, (es.all Ev.closingEv = true) ∧ run s es = some s' ∧ s'.phase = .ended r ∧ es.length ≤ 8 :=
+  closing_terminates s hr hup (Or.inr (by simp [hi])) hq
 
 /-! ### non-vacuity: a configuration error makes the daemon exit with status 1 -/
 
